@@ -11,7 +11,12 @@ META = {
             "TxToScriptData are compared character by character with the model's rendering, and the outcome of the model is compared with the real "
             "commander over the in-memory store reached four ways (direct, v2 handler, v1 handler, v2 bulk element). An independent oracle checks the "
             "returned transaction and the persisted log against the request (postings, metadata, reference, timestamp) and the accept/reject decision "
-            "against a replay.",
+            "against a replay. A second stream submits bulks of 1-4 elements (posting-mode creates with independently present/absent metadata, "
+            "reference and timestamp, next to script creates, reverts, metadata writes, unknown and undecodable elements) to the real ProcessBulk over "
+            "the same commander: every committed transaction (answer and log, captured when it is inserted) is held against ITS OWN element, the "
+            "accept/reject decision of each element against a replay on the balances left by the elements before it, and the outcome of each element "
+            "against the Lean model run on those balances. Posting lists are biased towards near-collisions of the textual encodings of a monetary "
+            "(asset||amount cut at different points, prefix assets, suffix amounts).",
     "note": "Trusted: Lean kernel (axioms propext/Classical.choice/Quot.sound at most); Spec as the meaning of Numscript (validated against compiler+VM by "
             "C01/C08's differential, not here); the Go harness (fake backend.Ledger that forwards CreateTransaction to a real command.Commander exactly as "
             "engine.Ledger does, storage.InMemoryStore instead of PostgreSQL); reference / timestamp handling of the commander is covered by the "
@@ -24,18 +29,27 @@ META = {
 PATHS = ("direct", "v2", "v1", "bulk")
 
 
-def replay_ok(inp):
-    """the acceptance condition of the property, computed from the request alone"""
+def table(triples):
     bal = collections.defaultdict(int)
-    for a, s, v in inp["bal"]:
+    for a, s, v in triples:
         bal[(a, s)] += int(v)
-    for p in inp["postings"]:
+    return bal
+
+
+def replay(postings, bal):
+    """the acceptance condition of the property: every posting, in order, finds its amount on its source; bal is updated"""
+    for p in postings:
         amt = int(p["amount"])
         if p["source"] != "world" and amt > 0 and bal[(p["source"], p["asset"])] < amt:
             return False
         bal[(p["source"], p["asset"])] -= amt
         bal[(p["destination"], p["asset"])] += amt
     return True
+
+
+def replay_ok(inp):
+    """… computed from the request alone"""
+    return replay(inp["postings"], table(inp["bal"]))
 
 
 def want_tx(inp):
@@ -131,9 +145,147 @@ def oracle(inp, out):
     return v
 
 
+LOG_OF = {"CREATE_TRANSACTION": "NEW_TRANSACTION", "REVERT_TRANSACTION": "REVERTED_TRANSACTION",
+          "ADD_METADATA": "SET_METADATA", "DELETE_METADATA": "DELETE_METADATA"}
+
+
+def judged(el):
+    return el.get("action") == "CREATE_TRANSACTION" and el.get("mode") == "postings"
+
+
+def bulk_oracle(inp, out):
+    """the property on a whole bulk: (violations, per-element inputs for the model, facts for the coverage report).
+
+    State carried from element to element: the balances and references the STORE holds (pre-loaded table plus the
+    transactions of the logs seen so far).  results[i] answers elements[i]; the k-th successful element owns the k-th
+    new log.  Elements other than posting-mode creates are not judged (C18 / C02 own them): what they left in the store
+    is taken as it is."""
+    v, derived, facts = [], [], collections.Counter()
+    els, res, logs = inp["elements"], out.get("results"), out.get("logs")
+    if res is None or logs is None:
+        return [({"class": "unreadable-answer", "path": "bulkN"}, "the bulk answered %s" % canon(out)[:300])], derived, facts
+    bal, refs = table(inp["bal"]), set()
+    li, stopped, first_create = 0, False, True
+    for i, el in enumerate(els):
+        if i >= len(res):
+            if not stopped:
+                v.append(({"class": "unreadable-answer", "path": "bulkN", "what": "missing-result"}, "element %d has no result although no element before it failed" % i))
+                stopped = True
+            continue
+        r = res[i]
+        ok = "err" not in r
+        if not ok and not inp["continue"]:
+            stopped = True
+        log = None
+        if ok:
+            if li < len(logs):
+                log = logs[li]
+            li += 1
+        if not judged(el):
+            facts["other:" + ("ok" if ok else "refused")] += 1
+            if ok and (log is None or log.get("type") != LOG_OF.get(r.get("type"))):
+                v.append(({"class": "log-count", "path": "bulkN", "element": "other"},
+                          "element %d (%s) succeeded as %s, the log inserted for it is %s" % (i, el.get("action"), r.get("type"), log)))
+            if log is not None and "tx" in log:   # a script / revert transaction: part of the state the next elements meet
+                for s_, d_, a_, as_ in log["tx"]["postings"]:
+                    bal[(s_, as_)] -= int(a_)
+                    bal[(d_, as_)] += int(a_)
+                if log["tx"]["ref"]:
+                    refs.add(log["tx"]["ref"])
+            continue
+        pos = "first" if first_create else "later"
+        first_create = False
+        path = "bulkN"
+        valid = el["kind"] == "valid"
+        dup = el["ref"] != "" and el["ref"] in refs
+        before = [[a, s_, str(x)] for (a, s_), x in sorted(bal.items()) if x != 0 and a != "world"]
+        trial = collections.defaultdict(int, bal)
+        covered = valid and replay(el["postings"], trial)
+        facts["create:" + ("accepted" if ok else "dup-ref" if dup else "invalid" if not valid else "short" if not covered else "refused?")] += 1
+        if not dup:
+            derived.append((i, {"postings": el["postings"], "bal": before, "meta": el.get("meta") or {}, "kind": el["kind"]},
+                            {"postings": r["tx"]["postings"], "meta": r["tx"]["meta"]} if ok and "tx" in r else {"err": r.get("err")}))
+        if not ok:
+            if valid and not dup:
+                if covered:
+                    v.append(({"class": "spurious-reject", "answer": r.get("err"), "path": path, "element": pos},
+                              "element %d refused (%s/%s) although its replay on the balances left by the elements before it never runs short and its reference %r is free"
+                              % (i, r.get("err"), r.get("detail"), el["ref"])))
+                elif r.get("err") != "insufficient_funds":
+                    v.append(({"class": "wrong-refusal", "answer": r.get("detail"), "path": path, "element": pos}, "element %d refused with %s instead of insufficient funds" % (i, r.get("detail"))))
+            continue
+        if not valid:
+            v.append(({"class": "invalid-accepted", "kind": el["kind"], "path": path}, "element %d committed a request with %s: %s" % (i, el["kind"], r.get("tx"))))
+        elif not covered and not dup:
+            v.append(({"class": "overdraft-accepted", "path": path, "element": pos}, "element %d committed although its replay finds a source short" % i))
+        if valid:
+            want = want_tx(el)
+            for where, got in (("returned transaction", r.get("tx")), ("persisted log", (log or {}).get("tx") if (log or {}).get("type") == "NEW_TRANSACTION" else None)):
+                if got is None:
+                    v.append(({"class": "log-count", "path": path, "where": where, "element": pos}, "element %d succeeded, its %s is missing (result %s, log %s)" % (i, where, r, log)))
+                    continue
+                for sig, what in check_tx(want, got, where, path):
+                    v.append((dict(sig, element=pos), "element %d of %d: %s" % (i, len(els), what)))
+            if log and "tx" in log and r.get("tx") and log["tx"]["id"] != r["tx"]["id"]:
+                v.append(({"class": "log-count", "path": path, "what": "id"}, "element %d answered transaction %s, its log holds transaction %s" % (i, r["tx"]["id"], log["tx"]["id"])))
+        # the state the next element meets is what the store holds
+        held = log["tx"] if log and "tx" in log else r.get("tx") or {"postings": [], "ref": ""}
+        for s_, d_, a_, as_ in held["postings"]:
+            if a_.lstrip("-").isdigit():
+                bal[(s_, as_)] -= int(a_)
+                bal[(d_, as_)] += int(a_)
+        if held["ref"]:
+            refs.add(held["ref"])
+    if li < len(logs) or (li > len(logs) and not v):
+        v.append(({"class": "partial", "path": "bulkN"}, "%d element(s) succeeded, the store received %d log(s): %s" % (li, len(logs), logs[li:] or res)))
+    return v, derived, facts
+
+
+def bulk_features(inp):
+    """what makes a bulk interesting for the property"""
+    f = set()
+    cs = [e for e in inp["elements"] if judged(e)]
+    if len(cs) >= 2:
+        f.add("two-creates")
+    if len(cs) < len(inp["elements"]) and cs:
+        f.add("mixed-actions")
+    for k, e in enumerate(cs):
+        for d in cs[:k]:
+            if d["ts"] is not None and e["ts"] is None:
+                f.add("later-omits-timestamp")
+            if d["ref"] and not e["ref"]:
+                f.add("later-omits-reference")
+            if set(d.get("meta") or {}) - set(e.get("meta") or {}):
+                f.add("later-omits-metadata-key")
+            if d.get("meta") and e.get("meta") is None:
+                f.add("later-omits-metadata")
+            if e["ref"] and e["ref"] == d["ref"]:
+                f.add("same-reference")
+            if e["ts"] is not None and e["ts"] == d["ts"]:
+                f.add("same-timestamp")
+    for e in cs:
+        if e["kind"] == "valid":
+            f |= {"tx:" + x for x in features({"postings": e["postings"], "bal": []}) if x in ("concat-collision", "repeated-amount", "prefix-asset", "chain")}
+    return f
+
+
 def features(inp):
     f = set()
     ps = inp["postings"]
+    mons = {(p["asset"], p["amount"]) for p in ps if p["asset"] is not None and p["amount"] is not None}
+    texts = collections.Counter(a + n for a, n in mons)
+    if any(c > 1 for c in texts.values()):
+        f.add("concat-collision")      # two different monetaries whose asset||amount texts are equal
+    assets = {a for a, _ in mons}
+    if any(a != b and b.startswith(a) and b[len(a):].isdigit() for a in assets for b in assets):
+        f.add("prefix-asset")
+    amounts = {n for _, n in mons}
+    if any(a != b and (b.endswith(a) or b.startswith(a)) for a in amounts for b in amounts):
+        f.add("affix-amount")
+    if len({n for _, n in mons}) < len(mons):
+        f.add("same-amount-other-asset")
+    if len({a for a, _ in mons}) < len(mons):
+        f.add("same-asset-other-amount")
     accts = [a for p in ps for a in (p["source"], p["destination"])]
     nonworld = [a for a in accts if a != "world"]
     if len(set(nonworld)) < len(nonworld):
@@ -179,18 +331,7 @@ def proj(r):
     return {"err": r.get("err")}
 
 
-def run(ctx):
-    ctx.cov["trusted_base"] = [
-        "Lean 4.33 kernel; axioms allowed: propext, Classical.choice, Quot.sound",
-        "Model.Numscript.Spec as the meaning of the generated script (tied to compiler+VM by C01/C08's differential); here it is tied end to end "
-        "to the commander for the scripts TxToScriptData produces",
-        "Go harness: real ledger.TxToScriptData, real command.Commander over storage.InMemoryStore, real v1/v2 routers and ProcessBulk over a "
-        "backend.Ledger that forwards CreateTransaction to the commander (as engine.Ledger does); PostgreSQL store not exercised",
-        "math/big modelled by Lean Int; Go maps modelled by association lists (the code sorts the names it prints)",
-    ]
-    ctx.l1()
-    if not (ctx.ensure_driver() and ctx.ensure_harness()):
-        return
+def run_txscript(ctx):
     n = 1500 if ctx.quick else 40000
     r = pipeline(ctx, "txscript", n)
     if r is None:
@@ -232,22 +373,118 @@ def run(ctx):
         for x in f:
             feats[x] += 1
         h = shash({k: v for k, v in inp.items() if k not in ("id", "corpus")})
-        if h not in seen and f & {"repeated-account", "repeated-amount", "chain"}:
+        if h not in seen and f & {"repeated-account", "repeated-amount", "chain", "concat-collision"}:
             nontrivial += 1
         seen.add(h)
-    ctx.cov["evaluations"] = len(inputs) * len(PATHS)
+    ctx.cov["evaluations"] += len(inputs) * len(PATHS)
     ctx.cov["requests"] = len(inputs)
-    ctx.cov["distinct_nontrivial"] = nontrivial
-    ctx.cov["rule"] = ("random posting lists (1..%d postings over a pool of 2-5 or 11-15 accounts incl. world, 1-3 repeating amounts incl. 0 / 2^64±1 / 2^70, "
-                       "1-2 assets incl. /precision; chains, fan-in/out, self-transfers) with balance tables derived from the amounts (exactly enough / one "
+    ctx.cov["distinct_nontrivial"] += nontrivial
+    ctx.cov["samples"] += [{"input": i, "impl": {p: proj(impl.get(i["id"], {}).get(p)) for p in PATHS}} for i in inputs[:2]]
+    ctx.cov["input_distribution"]["txscript"] = {
+        "kinds": dict(kinds), "features_of_valid": dict(feats), "outcome_direct": dict(outcomes), "refused_with_5xx": dict(fivexx),
+        "postings_per_request": {str(k): v for k, v in sorted(sizes.items())}}
+
+
+def run_txbulk(ctx):
+    n = 2500 if ctx.quick else 40000
+    r = pipeline(ctx, "txbulk", n, model=False)
+    if r is None:
+        return
+    inputs, impl, _ = r
+    feats, facts, sizes, actions = collections.Counter(), collections.Counter(), collections.Counter(), collections.Counter()
+    seen, nontrivial, elements = set(), 0, 0
+    rows, observed = [], {}      # per-element requests for the Lean model: the element on the balances the store held before it
+    for inp in inputs:
+        out = impl.get(inp["id"])
+        if out is None:
+            continue
+        if "panic" in out:
+            ctx.violation({"property": "C09", "class": "panic", "path": "bulkN"}, "bulk case panicked: %s" % out["panic"],
+                          {"area": "txbulk", "input": inp, "observed": out})
+            continue
+        v, derived, fc = bulk_oracle(inp, out)
+        for sig, what in v:
+            ctx.violation(dict(sig, property="C09"), what, {"area": "txbulk", "input": inp, "observed": out})
+        for k, row, obs in derived:
+            rid = len(rows)
+            rows.append(dict(row, id=rid))
+            observed[rid] = (inp, k, obs)
+        facts.update(fc)
+        sizes[len(inp["elements"])] += 1
+        elements += len(inp["elements"])
+        for e in inp["elements"]:
+            actions[(e.get("action") or "<empty>") + ("/" + e["mode"] if "mode" in e else "")] += 1
+        f = bulk_features(inp)
+        for x in f:
+            feats[x] += 1
+        h = shash({k: v for k, v in inp.items() if k not in ("id", "corpus")})
+        if h not in seen and "two-creates" in f:
+            nontrivial += 1
+        seen.add(h)
+    # L2: every posting-mode element against the model, on the balances left by the elements before it
+    stream, bad = "txbulk:outcome-element", 0
+    if rows:
+        inf, outf = ctx.path("txbulk.elements.in.jsonl"), ctx.path("txbulk.elements.model.jsonl")
+        write_jsonl(inf, rows)
+        p = run_driver("txscript", inf, outf)
+        if p.returncode != 0:
+            ctx.l2_broken.append({"stream": "txbulk-driver", "detail": (p.stdout + p.stderr)[-2000:]})
+        else:
+            model = {r["id"]: r["out"] for r in read_jsonl(outf)}
+            for row in rows:
+                inp, k, obs = observed[row["id"]]
+                m = model.get(row["id"], {}).get("v2")
+                if m is None or canon(m) != canon(obs):
+                    bad += 1
+                    if bad <= 5:
+                        ctx.l2_broken.append({"stream": stream, "id": inp["id"], "element": k, "input": inp, "impl": obs, "model": m})
+    ctx.cov.setdefault("disagreements", {})[stream] = bad
+    ctx.cov.setdefault("compared", {})[stream] = len(rows)
+    ctx.cov["evaluations"] += elements
+    ctx.cov["bulks"] = len(inputs)
+    ctx.cov["distinct_nontrivial"] += nontrivial
+    ctx.cov["samples"] += [{"input": i, "impl": impl.get(i["id"])} for i in inputs[:1]]
+    ctx.cov["input_distribution"]["txbulk"] = {
+        "elements_per_bulk": {str(k): v for k, v in sorted(sizes.items())}, "actions": dict(actions),
+        "features": dict(feats), "elements_by_outcome": dict(facts)}
+
+
+def run(ctx):
+    ctx.cov["trusted_base"] = [
+        "Lean 4.33 kernel; axioms allowed: propext, Classical.choice, Quot.sound",
+        "Model.Numscript.Spec as the meaning of the generated script (tied to compiler+VM by C01/C08's differential); here it is tied end to end "
+        "to the commander for the scripts TxToScriptData produces",
+        "Go harness: real ledger.TxToScriptData, real command.Commander over storage.InMemoryStore, real v1/v2 routers and ProcessBulk over a "
+        "backend.Ledger that forwards CreateTransaction (bulks: every write) to the commander (as engine.Ledger does); PostgreSQL store not exercised",
+        "bulks: the logs are copied when the commander inserts them into the store; results[i] is read as the answer to elements[i] and the k-th "
+        "successful element as the owner of the k-th log (ProcessBulk is sequential; the oracle flags any answer/log that breaks this pairing)",
+        "math/big modelled by Lean Int; Go maps modelled by association lists (the code sorts the names it prints)",
+    ]
+    ctx.l1()
+    if not (ctx.ensure_driver() and ctx.ensure_harness()):
+        return
+    areas = ("txscript", "txbulk")
+    if ctx.replay_file:   # a replay carries one input of one area
+        import json
+        areas = (json.load(open(ctx.replay_file)).get("replay", {}).get("area", "txscript"),)
+    ctx.cov["input_distribution"] = {}
+    if "txscript" in areas:
+        run_txscript(ctx)
+    if "txbulk" in areas:
+        run_txbulk(ctx)
+    ctx.cov["rule"] = ("(a) random posting lists (1..%d postings over a pool of 2-5 or 11-15 accounts incl. world, 1-3 repeating amounts incl. 0 / 2^64±1 / 2^70, "
+                       "1-2 assets incl. /precision; chains, fan-in/out, self-transfers; 40%% of the lists draw assets and amounts from ONE near-collision family: "
+                       "assets stem+w[:i] or stem/w[:i] and amounts the suffixes/prefixes of one digit word w, 60%% of those with two postings whose "
+                       "asset||amount texts are equal) with balance tables derived from the amounts (exactly enough / one "
                        "short / surplus / empty / already negative), metadata, reference and timestamp present or absent; 15%% malformed (negative or "
                        "missing amount, invalid address, invalid asset, no posting); every request goes through 4 paths; non-trivial = distinct valid "
-                       "request with a repeated account, a repeated amount or a chain") % (12 if ctx.quick else 30)
-    ctx.cov["samples"] = [{"input": i, "impl": {p: proj(impl.get(i["id"], {}).get(p)) for p in PATHS}} for i in inputs[:2]]
-    ctx.cov["input_distribution"] = {"kinds": dict(kinds), "features_of_valid": dict(feats), "outcome_direct": dict(outcomes),
-                                     "refused_with_5xx": dict(fivexx),
-                                     "postings_per_request": {str(k): v for k, v in sorted(sizes.items())}}
+                       "request with a repeated account, a repeated amount, a chain or a text collision. (b) bulks of 1-4 elements: 62%% posting-mode creates "
+                       "(1-4 postings from pools shared by the bulk, metadata key / reference / timestamp each present or absent per element, 8%% malformed), "
+                       "script creates, reverts, metadata writes, unknown actions, undecodable data; balances derived for the whole sequence (exact / one short / "
+                       "empty / surplus), continueOnFailure on or off; non-trivial = distinct bulk with at least two posting-mode creates") % (12 if ctx.quick else 30)
     ctx.assumptions += [
         "requests are submitted one at a time, never as dry runs (known engine defects on those paths are tracked under C02/C14/C16)",
         "the persisted log is the one held by storage.InMemoryStore; the SQL store's encoding is C13's business",
+        "inside a bulk only posting-mode CREATE_TRANSACTION elements are judged; what the other elements leave in the store is taken as the state "
+        "the next element meets (C18 owns their dispatch)",
     ]
